@@ -26,6 +26,6 @@ def run(ctx):
     t = ctx.tier
     ctx.tlc("MC_NameTable", "MC_NameTable_" + t, replay="scope", coverage=False)
     ctx.tlc("MC_AliasChain", "MC_AliasChain_" + t, replay="aliaschain", coverage=False)
-    n = 120 if ctx.quick else 6000
-    ctx.tlc("MC_Syntax", "MC_Syntax_sim", replay="syntax-find", simulate={"num": n, "depth": 500, "procs": 6 if ctx.quick else 12, "seed_offset": 60},
+    n = 360 if ctx.quick else 6000
+    ctx.tlc("MC_Syntax", "MC_Syntax_sim", replay="syntax-find", simulate={"num": n, "depth": 500, "procs": 12, "seed_offset": 60},
             label="MC_Syntax_sim", timeout=7200)
